@@ -103,7 +103,7 @@ func checkC01(c *Ctx) {
 			variants[1].opt.Race = false // the race build is ~8x slower: every third history in quick
 		}
 		for _, v := range variants {
-			dir := filepath.Join(c.Dir(fmt.Sprintf("c01-%d", i)), v.sub)
+			dir := filepath.Join(c.DirI(i, fmt.Sprintf("c01-%d", i)), v.sub)
 			r, info, err := openReplica(c, dir, hr.G.G, v.opt, true)
 			if err != nil {
 				c.Err(i, "twin open", err)
@@ -243,7 +243,7 @@ func checkC05(c *Ctx) {
 		if len(hr.Results) == 0 {
 			return
 		}
-		dir := c.Dir(fmt.Sprintf("c05-%d-twin", i))
+		dir := c.DirI(i, fmt.Sprintf("c05-%d-twin", i))
 		r, _, err := openReplica(c, dir, hr.G.G, SpawnOpt{}, true)
 		if err != nil {
 			c.Err(i, "twin open", err)
@@ -251,7 +251,7 @@ func checkC05(c *Ctx) {
 		}
 		defer r.Close()
 		// a second full replica gives the dumps of A (the primary process has exited)
-		dirA := c.Dir(fmt.Sprintf("c05-%d-full", i))
+		dirA := c.DirI(i, fmt.Sprintf("c05-%d-full", i))
 		ra, _, err := openReplica(c, dirA, hr.G.G, SpawnOpt{}, true)
 		if err != nil {
 			c.Err(i, "twin open", err)
@@ -260,7 +260,7 @@ func checkC05(c *Ctx) {
 		defer ra.Close()
 		// third replica: per block exactly one (PRNG-chosen) failed transaction is removed; every other
 		// transaction - including the other failed ones - must behave exactly as next to it
-		dirC := c.Dir(fmt.Sprintf("c05-%d-one", i))
+		dirC := c.DirI(i, fmt.Sprintf("c05-%d-one", i))
 		rc, _, err := openReplica(c, dirC, hr.G.G, SpawnOpt{}, true)
 		if err != nil {
 			c.Err(i, "twin open", err)
@@ -465,7 +465,7 @@ func (c *Ctx) restartRun(i, si int, hr *HistRun, o *HistOpts, set []int64) {
 	for _, h := range set {
 		at[h] = true
 	}
-	dir := c.Dir(fmt.Sprintf("c07-%d-%d", i, si))
+	dir := c.DirI(i, fmt.Sprintf("c07-%d-%d", i, si))
 	defer os.RemoveAll(dir)
 	r, _, err := openReplica(c, dir, hr.G.G, SpawnOpt{}, true)
 	if err != nil {
